@@ -76,6 +76,33 @@ func vPrioExec(o *vOut, t []string) string {
 		}
 		o.stat(fmt.Sprintf("cand.%s.tcp=%t", CandidateType(ty), tcp))
 		return fmt.Sprintf("%d %d %d", base.TypePreference(), base.LocalPreference(), c.Priority())
+	case len(t) == 5 && t[1] == "found":
+		// found <type 1..4> <tcp> <address>  -> "<net code> <foundation>"
+		ty, _ := strconv.Atoi(t[2])
+		tcp := t[3] == "true"
+		network := "udp"
+		if tcp {
+			network = "tcp"
+		}
+		var c Candidate
+		var err error
+		switch CandidateType(ty) {
+		case CandidateTypeHost:
+			c, err = NewCandidateHost(&CandidateHostConfig{Network: network, Address: t[4], Port: 4000, Component: 1})
+		case CandidateTypeServerReflexive:
+			c, err = NewCandidateServerReflexive(&CandidateServerReflexiveConfig{Network: network, Address: t[4], Port: 4000, Component: 1})
+		case CandidateTypePeerReflexive:
+			c, err = NewCandidatePeerReflexive(&CandidatePeerReflexiveConfig{Network: network, Address: t[4], Port: 4000, Component: 1})
+		case CandidateTypeRelay:
+			c, err = NewCandidateRelay(&CandidateRelayConfig{Network: network, Address: t[4], Port: 4000, Component: 1})
+		default:
+			return "error"
+		}
+		if err != nil {
+			return "error"
+		}
+		o.stat("found")
+		return fmt.Sprintf("%d %s", int(c.NetworkType()), c.Foundation())
 	case len(t) == 5 && t[1] == "pair":
 		l, _ := strconv.ParseUint(t[2], 10, 32)
 		rm, _ := strconv.ParseUint(t[3], 10, 32)
@@ -139,6 +166,15 @@ func vPrioGen(o *vOut, r *vRand, thorough bool, _ []string, emit func(string)) {
 						}
 					}
 				}
+			}
+		}
+	}
+	// foundations: type x transport x a pool of addresses (equal triples must collide, different ones not)
+	addrs := []string{"10.0.0.1", "10.0.0.2", "192.168.1.1", "2001:db8::7", "2001:db8::8", "fd00::1", "1.2.3.4", "11.0.0.1", "110.0.0.1"}
+	for _, ty := range types {
+		for _, tcp := range []bool{false, true} {
+			for _, a := range addrs {
+				emit(fmt.Sprintf("prio found %d %t %s", ty, tcp, a))
 			}
 		}
 	}
